@@ -303,3 +303,19 @@ M('c12-form-reject-empty-mapping', 'C12', 'R7', UE, _UE_PARSE, """            bo
             assert result, 'no fields'
             return result
 """)
+
+# ----------------------------------------------------------------------- R6 per configuration (seeded s7-c12-1): with the
+# non-default csv=True the same handler's reader splits values on ',' - a `safe` that exempts it breaks the round trip
+M('c12-form-comma-safe-when-csv', 'C12', 'R6', UE, _UE_CALL,
+  "        return urlencode(media, doseq=True, safe=',' if self._csv else '').encode()\n")
+M('c12-form-comma-safe-always', 'C12', 'R6', UE, _UE_CALL, "        return urlencode(media, doseq=True, safe=',').encode()\n")
+M('c12-form-comma-safe-through-local', 'C12', 'R6', UE, _UE_CALL,
+  "        safe = self._csv and ',' or ''\n        return urlencode(media, doseq=True, safe=safe).encode()\n")
+M2('c12-form-comma-safe-in-quoting-lambda', 'C12', 'R6', [
+    {'file': UE, 'old': "from urllib.parse import urlencode\n", 'new': "from urllib.parse import quote_plus\nfrom urllib.parse import urlencode\n"},
+    {'file': UE, 'old': _UE_CALL,
+     'new': "        return urlencode(media, doseq=True, quote_via=lambda s, safe, enc, err: "
+            "quote_plus(s, ',' if self._csv else '', enc, err)).encode()\n"}])
+# negative controls verified by hand with --root (silent): `safe='' if self._csv else ','` (the comma is literal only when the
+# reader does not split on it), `safe='~' if self._keep_blank else ''`, `safe=','` with the reader's csv argument dropped
+# (parse_query_string's default: no splitting); `safe=self._safe_chars` (not a boolean constructor option) is exit 2
